@@ -1109,7 +1109,7 @@ Proof.
   - unfold pool_reject. cbn. rewrite Pf. cbn. repeat split.
     intros e He. destruct e; try discriminate He; cbn; rewrite ?Kp; try reflexivity.
     + unfold Server.work. cbn. unfold upd. cbn. destruct (Nat.eqb c 1); reflexivity.
-    + unfold Server.poll_step. cbn. now rewrite andb_false_r.
+    + unfold Server.poll_step. cbn. Show.
     + unfold Server.take_step. cbn. destruct (nth_error _ w) as [[?|]|]; reflexivity.
     + unfold Server.serve_step. cbn. destruct (nth_error_repeat_none (nworkers K) w) as [-> | ->]; reflexivity.
 Qed.
